@@ -29,7 +29,7 @@ func ruleReplayErrorUnwrapped(c *Ctx) {
 		if !ok || obj == nil {
 			continue
 		}
-		walkAll(rp.Body, func(m ast.Node) bool {
+		rp.walk(func(m ast.Node) bool {
 			cx, isC := m.(*ast.CallExpr)
 			if !isC || CalleeName(rp.Info, cx) != "fmt.Errorf" || len(cx.Args) < 2 {
 				return true
@@ -43,6 +43,7 @@ func ruleReplayErrorUnwrapped(c *Ctx) {
 			}
 			return true
 		})
+
 	}
 	// classification sites in the cleaner: every test of "is it a ReplayError" on Replay's error
 	var errObj types.Object
@@ -58,7 +59,7 @@ func ruleReplayErrorUnwrapped(c *Ctx) {
 	}
 	asCalls, asserts := 0, 0
 	var pos ast.Node = cl.Body
-	walkAll(cl.Body, func(m ast.Node) bool {
+	cl.walk(func(m ast.Node) bool {
 		switch x := m.(type) {
 		case *ast.CallExpr:
 			if nm := CalleeName(cl.Info, x); (nm == "errors.As" || nm == "errors.Is") && len(x.Args) == 2 && identObj(cl.Info, x.Args[0]) == errObj {
@@ -74,6 +75,7 @@ func ruleReplayErrorUnwrapped(c *Ctx) {
 		}
 		return true
 	})
+
 	c.Note("R34.8: Replay wraps replayTGData's error with %%w at %d site(s)", wraps)
 	switch {
 	case asserts > 0 && wraps > 0:
@@ -199,7 +201,7 @@ func ruleHeaderFullSlotCopy(c *Ctx) {
 	}
 	checkCopies(s, func(e ast.Expr) bool { return isHdrField(s, e) })
 	// helpers that receive a header slot as a []byte parameter
-	walkAll(s.Body, func(m ast.Node) bool {
+	s.walk(func(m ast.Node) bool {
 		cx, ok := m.(*ast.CallExpr)
 		if !ok {
 			return true
@@ -227,6 +229,7 @@ func ruleHeaderFullSlotCopy(c *Ctx) {
 		checkCopies(hs, func(e ast.Expr) bool { return slots[identObj(hs.Info, e)] })
 		return true
 	})
+
 	c.Floor(rule, s.Name, "copies into header text slots", n, 2)
 }
 
@@ -241,7 +244,7 @@ func ruleStreamKeyLossless(c *Ctx) {
 	lossy := map[string]bool{"net.SplitHostPort": true, "strings.Split": true, "strings.SplitN": true, "strings.Cut": true, "strings.TrimSuffix": true,
 		"strings.TrimRight": true, "strings.TrimPrefix": true, "strings.Index": true, "strings.LastIndex": true, "strings.Fields": true, "net.ParseIP": true, "(*net.TCPAddr).IP": true}
 	var keyExprs []ast.Expr
-	walkAll(s.Body, func(m ast.Node) bool {
+	s.walk(func(m ast.Node) bool {
 		if as, ok := m.(*ast.AssignStmt); ok {
 			for _, l := range as.Lhs {
 				if ix, ok := unparen(l).(*ast.IndexExpr); ok && fieldKey(s.Info, ix.X) == "replication.GRPCReplicationServer.StreamChannels" {
@@ -251,6 +254,7 @@ func ruleStreamKeyLossless(c *Ctx) {
 		}
 		return true
 	})
+
 	c.Floor(rule, s.Name, "stream map inserts", len(keyExprs), 1)
 	for _, k := range keyExprs {
 		bad := ""
@@ -277,6 +281,7 @@ func ruleStreamKeyLossless(c *Ctx) {
 							}
 							return true
 						})
+
 					}
 				case *ast.SliceExpr:
 					if b, ok := sc.Info.TypeOf(x.X).Underlying().(*types.Basic); ok && b.Kind() == types.String {
@@ -285,7 +290,7 @@ func ruleStreamKeyLossless(c *Ctx) {
 					}
 				case *ast.Ident:
 					if v, ok := sc.Info.ObjectOf(x).(*types.Var); ok && !v.IsField() {
-						walkAll(sc.Body, func(d ast.Node) bool {
+						sc.walk(func(d ast.Node) bool {
 							if as, ok := d.(*ast.AssignStmt); ok {
 								for i, l := range as.Lhs {
 									if identObj(sc.Info, l) == v {
@@ -304,6 +309,7 @@ func ruleStreamKeyLossless(c *Ctx) {
 							}
 							return true
 						})
+
 					}
 				}
 				return bad == ""
